@@ -307,6 +307,8 @@ struct Wr {
     base_content: String,
     content: String,
     result: Result<u64, String>, // version or error kind
+    /// the file was deleted and created again with `content` by this client (not a versioned write)
+    recreate: bool,
 }
 
 fn part_b(sh: &mut Shard, rng: &mut Rng, work: &Path, runs: usize) {
@@ -329,6 +331,8 @@ fn part_b(sh: &mut Shard, rng: &mut Rng, work: &Path, runs: usize) {
         // file names that have directory names as proper string prefixes (pump.st / pump, lib_io/x.st / lib), so that
         // bystander operations on those directories must not disturb the tracked files
         let prefixy = rng.chance(1, 2);
+        // in a third of the histories writers sometimes replace a file by deleting and creating it again
+        let recreates = rng.chance(1, 3);
         let files: Vec<String> = if prefixy { ["pump.st", "lib_io/x.st"][..nfiles].iter().map(|s| s.to_string()).collect() } else { (0..nfiles).map(|i| format!("f{i}.st")).collect() };
         let bystander_dirs: Vec<&str> = if prefixy { vec!["pump", "pu", "lib", "lib_i", "other"] } else { vec!["f0", "f", "f1.s", "other"] };
         for f in &files {
@@ -379,6 +383,32 @@ fn part_b(sh: &mut Shard, rng: &mut Rng, work: &Path, runs: usize) {
                         std::thread::yield_now();
                     }
                     ctr += 1;
+                    if recreates && r.chance(1, 12) {
+                        // replace the file: delete it and create it again with new content (create retried: a stale
+                        // writer may not bring the path back, but be robust if it does)
+                        let content = format!("(* r{c}-{ctr} *)\n");
+                        let call = clockv.fetch_add(1, Ordering::SeqCst);
+                        let mut res: Result<u64, String> = Err("delete-refused".into());
+                        if st.delete_entry(&tok, &files[fi], true).is_ok() {
+                            res = Err("create-refused".into());
+                            for _ in 0..5 {
+                                match st.create_entry(&tok, &files[fi], false, Some(content.clone()), true) {
+                                    Ok(x) => {
+                                        res = Ok(x.version.unwrap_or(1));
+                                        break;
+                                    }
+                                    Err(e) => res = Err(format!("create-refused:{:?}", e.kind())),
+                                }
+                            }
+                        }
+                        let ret = clockv.fetch_add(1, Ordering::SeqCst);
+                        held[fi] = match &res {
+                            Ok(v) => Some((*v, content.clone())),
+                            Err(_) => None,
+                        };
+                        log.lock().unwrap().push(Wr { client: c, file: fi, call, ret, base_version: 0, base_content: "<replaced>".into(), content, result: res, recreate: true });
+                        continue;
+                    }
                     let content = format!("(* w{c}-{ctr} *)\n");
                     let call = clockv.fetch_add(1, Ordering::SeqCst);
                     let (snap_version, snap_content) = (snap.version, snap.content.clone());
@@ -393,6 +423,7 @@ fn part_b(sh: &mut Shard, rng: &mut Rng, work: &Path, runs: usize) {
                         base_content: snap.content,
                         content,
                         result: res.as_ref().map(|w| w.version).map_err(|e| format!("{:?}", e.kind())),
+                        recreate: false,
                     });
                     held[fi] = match res {
                         Ok(w) => Some((w.version, format!("(* w{c}-{ctr} *)\n"))),
@@ -469,6 +500,39 @@ fn part_b(sh: &mut Shard, rng: &mut Rng, work: &Path, runs: usize) {
             let ws: Vec<&Wr> = hist.iter().filter(|w| w.file == fi).collect();
             if ws.iter().any(|a| ws.iter().any(|b| a.client != b.client && a.call < b.ret && b.call < a.ret)) {
                 overlapping = true;
+            }
+            if hist.iter().any(|w| w.file == fi && w.recreate) {
+                sh.count("B_files_replaced_by_delete_and_create", 1);
+                if hist.iter().any(|w| w.file == fi && w.recreate && matches!(&w.result, Err(e) if e.starts_with("create-refused"))) {
+                    // deleted but not created again by the same client: outside the model
+                    sh.count("B_files_left_unmodelled_after_delete", 1);
+                    continue;
+                }
+                // versions restart with the new file, so successes cannot be ordered by version. Necessary condition from the
+                // call / return instants alone: the content a successful write was based on must not have been replaced by a
+                // success that lies entirely between the write that produced that content and this write.
+                let all: Vec<&Wr> = hist.iter().filter(|w| w.file == fi && w.result.is_ok()).collect();
+                for w in all.iter().filter(|w| !w.recreate) {
+                    let (p_ret, found) = if w.base_content == "(* init *)\n" { (0u64, true) } else { all.iter().find(|p| p.content == w.base_content).map(|p| (p.ret, true)).unwrap_or((0, false)) };
+                    if !found {
+                        sh.violation("B|base-content-never-written", format!("{f}: a successful write was based on {:?}, which no successful operation produced", w.base_content), json!({"case": case, "history": render(&hist, fi)}));
+                        break;
+                    }
+                    if let Some(q) = all.iter().find(|q| q.content != w.base_content && q.content != w.content && q.call > p_ret && q.ret < w.call) {
+                        sh.violation(
+                            "B|lost-update-across-delete-and-create",
+                            format!("{f}: write {:?} (client {}, based on version {} content {:?}) succeeded although {:?} (client {}, {}) had completed in between: that content was silently overwritten", w.content, w.client, w.base_version, w.base_content, q.content, q.client, if q.recreate { "delete + create" } else { "write" }),
+                            json!({"case": case, "history": render(&hist, fi)}),
+                        );
+                        break;
+                    }
+                }
+                let disk = std::fs::read_to_string(root.join(f)).unwrap_or_default();
+                let maximal: Vec<&str> = all.iter().filter(|l| !all.iter().any(|o| o.call > l.ret)).map(|l| l.content.as_str()).collect();
+                if !all.is_empty() && !maximal.contains(&disk.as_str()) {
+                    sh.violation("B|disk-not-a-last-success", format!("{f}: disk holds {disk:?}, the operations not followed by another are {maximal:?}"), json!({"case": case, "history": render(&hist, fi)}));
+                }
+                continue;
             }
             let mut prev_content = "(* init *)\n".to_string();
             let mut prev_version = 0u64;
